@@ -48,3 +48,31 @@ Check (C13_built_name_record_is_insertable : forall t name ttl target rr,
     (target = dotted ls2 \/ target = dots ls2 \/ (target = [46%N] /\ ls2 = [])) /\
     rr = plain_record (name_rec ls t CLASS_IN ttl ls2) /\ plain_rr_ok (name_rec ls t CLASS_IN ttl ls2)).
 Print Assumptions C13_built_name_record_is_insertable.
+Check (C13_built_mx_record_is_insertable : forall name ttl pref mxhost rr,
+  build_mx name ttl pref mxhost = Ok rr -> (ttl < 4294967296)%N ->
+  exists ls ls2, Forall label_ok ls /\ Forall label_ok ls2 /\
+    (name = dotted ls \/ name = dots ls \/ (name = [46%N] /\ ls = [])) /\
+    (mxhost = dotted ls2 \/ mxhost = dots ls2 \/ (mxhost = [46%N] /\ ls2 = [])) /\
+    rr = plain_record (mx_rec ls CLASS_IN ttl pref ls2) /\ plain_rr_ok (mx_rec ls CLASS_IN ttl pref ls2)).
+Print Assumptions C13_built_mx_record_is_insertable.
+Check (C13_built_soa_record_is_insertable : forall name ttl primary_ns contact ts refresh retry auth neg rr,
+  build_soa name ttl primary_ns contact ts refresh retry auth neg = Ok rr -> (ttl < 4294967296)%N ->
+  exists ls ls1 ls2, Forall label_ok ls /\ Forall label_ok ls1 /\ Forall label_ok ls2 /\
+    (name = dotted ls \/ name = dots ls \/ (name = [46%N] /\ ls = [])) /\
+    (primary_ns = dotted ls1 \/ primary_ns = dots ls1 \/ (primary_ns = [46%N] /\ ls1 = [])) /\
+    (contact = dotted ls2 \/ contact = dots ls2 \/ (contact = [46%N] /\ ls2 = [])) /\
+    let tail := be32_bytes ts ++ be32_bytes refresh ++ be32_bytes retry ++ be32_bytes auth ++ be32_bytes neg in
+    rr = plain_record (soa_rec ls CLASS_IN ttl ls1 ls2 tail) /\ plain_rr_ok (soa_rec ls CLASS_IN ttl ls1 ls2 tail)).
+Print Assumptions C13_built_soa_record_is_insertable.
+Check (C13_built_txt_record_is_insertable : forall name ttl txt rr,
+  build_txt name ttl txt = Ok rr -> bytes_ok txt -> (ttl < 4294967296)%N ->
+  exists ls, Forall label_ok ls /\ (name = dotted ls \/ name = dots ls \/ (name = [46%N] /\ ls = [])) /\
+    let rd := chunks255 (length txt + 1) txt in
+    rr = plain_record (raw_rec ls TYPE_TXT CLASS_IN ttl rd) /\ plain_rr_ok (raw_rec ls TYPE_TXT CLASS_IN ttl rd)).
+Print Assumptions C13_built_txt_record_is_insertable.
+Check (C13_built_ds_record_is_insertable : forall name ttl key_tag alg dtype digest rr,
+  build_ds name ttl key_tag alg dtype digest = Ok rr -> bytes_ok digest -> (alg < 256)%N -> (dtype < 256)%N -> (ttl < 4294967296)%N ->
+  exists ls, Forall label_ok ls /\ (name = dotted ls \/ name = dots ls \/ (name = [46%N] /\ ls = [])) /\
+    let rd := be16_bytes key_tag ++ [alg; dtype] ++ digest in
+    rr = plain_record (raw_rec ls TYPE_DS CLASS_IN ttl rd) /\ plain_rr_ok (raw_rec ls TYPE_DS CLASS_IN ttl rd)).
+Print Assumptions C13_built_ds_record_is_insertable.
